@@ -34,6 +34,7 @@ class Report:
         self.samples = []
         self.known = load_known()
         self.mins = []            # (rule, found, minimum)
+        self.short = []           # instance counts below the hand-confirmed minimum (deferred analysis-broken)
 
     # ---- bookkeeping
     def rule(self, rid, text):
@@ -76,7 +77,9 @@ class Report:
         """non-vacuity: fewer rule instances than hand-confirmed => analysis broken"""
         self.mins.append((rule, found, minimum))
         if found < minimum:
-            raise AnalysisBroken('%s: only %d instances of "%s" found, hand-confirmed minimum is %d' % (rule, found, what, minimum))
+            # deferred to finish(): the remaining rules still run, so a change that removes instances AND breaks a rule is
+            # reported as the violation it is; without a violation the shortfall makes the run analysis-broken (exit 2)
+            self.short.append('%s: only %d instances of "%s" found, hand-confirmed minimum is %d' % (rule, found, what, minimum))
 
     def sample(self, s):
         if len(self.samples) < 12:
@@ -85,6 +88,8 @@ class Report:
     # ---- output
     def finish(self, broken=None):
         wall = time.time() - self.t0
+        if self.short:
+            broken = '; '.join(self.short + ([broken] if broken else []))
         evdir = os.environ.get('VERIF_EVIDENCE_DIR') or os.path.join(VERIF, 'evidence')     # self-tests on scratch copies write elsewhere
         outdir = os.environ.get('VERIF_OUT_DIR') or os.path.join(VERIF, 'out')
         os.makedirs(evdir, exist_ok=True)
@@ -133,7 +138,9 @@ class Report:
             print('KNOWN-FINDING: property=%s %s %s: %s' % (self.pid, k['key'], k['site'], k['what']))
         if broken:
             print('ANALYSIS-BROKEN property=%s: %s' % (self.pid, broken))
-            return 2
+            if not self.violations:
+                return 2
+            print('note: the violations below were decided on concrete sites before / independent of the part that could not be analysed')
         if self.violations:
             for i, v in enumerate(self.violations):
                 p = os.path.join(outdir, '%s_violation_%d.json' % (self.pid, i))
